@@ -89,7 +89,7 @@ PROPS = {
         assumptions=["chain_reference_id is bound by the attestation key's store prefix, not by the hash"],
     ),
     "C16": dict(
-        lean_modules=["PalomaModel.Props.C16", "PalomaModel.Props.Consts.C16"], gen=["ConstTable.lean"],
+        lean_modules=["PalomaModel.Props.C16", "PalomaModel.Props.Consts.C16", "PalomaModel.Props.Translated.C16"], gen=["ConstTable.lean", "Translated.lean"],
         harness_test="TestC16",
         n_quick=150, n_thorough=1500, thorough_seeds=8, timeout_quick=900,
         spec_ops=["*"],  # every observable the driver prints for this property is the property's own subject (canonical state / verdicts)
